@@ -13,6 +13,7 @@ import (
 	"os"
 	"sort"
 	"strings"
+	"syscall"
 
 	lua "github.com/yuin/gopher-lua"
 	"verifh/lib"
@@ -55,6 +56,10 @@ func main() {
 			return
 		}
 	}
+	// never take the machine down: a runaway allocation inside the VM (possible under a mutated
+	// compiler/VM) must kill this process, not its neighbours
+	lim := syscall.Rlimit{Cur: 24 << 30, Max: 24 << 30}
+	syscall.Setrlimit(syscall.RLIMIT_AS, &lim)
 	a := lib.ParseArgs()
 	if a.Cmd != "run" {
 		fmt.Fprintln(os.Stderr, "unknown command", a.Cmd)
